@@ -94,6 +94,9 @@ def main():
             out["demo_patched_tail"] = o1[-400:]
             if do_tests:
                 patched, tail = run_tests(wt)
+                if "<junit>" in patched:          # pytest died before writing its report (overloaded machine): once more
+                    out["tests_first_attempt_tail"] = tail[-600:]
+                    patched, tail = run_tests(wt)
                 diff = {k: (base.get(k), v) for k, v in patched.items() if base.get(k) != v}
                 diff.update({k: (v, None) for k, v in base.items() if k not in patched})
                 out["tests_changed"] = diff
